@@ -120,4 +120,97 @@ example : okAnd (exec cfg0 sample (.snapshot 1 [{ id := 5, ins := [.genesis], ou
     (fun s' => s'.ghost.get 7 == some 5 && s'.ghost.get 8 == some 5 && s'.utxo.get (5, 1) == some 0) = true := by
   decide
 
+/-! ## a transaction that repeats a key among its own outputs is rejected -/
+
+theorem scanKeys_some {valid : Nat → Bool} {ks seen seen' : List Nat} (h : scanKeys valid ks seen = some seen') :
+    seen' = ks.reverse ++ seen ∧ ks.Nodup ∧ ∀ k ∈ ks, k ∉ seen := by
+  induction ks generalizing seen with
+  | nil => simp only [scanKeys, Option.some.injEq] at h; subst h; simp
+  | cons k r ih =>
+    unfold scanKeys at h
+    split at h
+    · cases h
+    · next hk =>
+      split at h
+      · obtain ⟨e, nd, dj⟩ := ih h
+        refine ⟨by rw [e]; simp, ?_, ?_⟩
+        · rw [List.nodup_cons]
+          exact ⟨fun hm => dj k hm List.mem_cons_self, nd⟩
+        · intro x hx
+          cases hx with
+          | head => exact hk
+          | tail _ hx' => exact fun hs => dj x hx' (List.mem_cons_of_mem _ hs)
+      · cases h
+
+theorem scanOuts_some {oc : OutCfg} {outs : List Out} {seen seen' : List Nat} (h : scanOuts oc outs seen = some seen') :
+    (outs.flatMap (·.keys)).Nodup ∧ (∀ k ∈ outs.flatMap (·.keys), k ∉ seen) ∧
+    seen' = (outs.flatMap (·.keys)).reverse ++ seen := by
+  induction outs generalizing seen with
+  | nil => simp only [scanOuts, Option.some.injEq] at h; subst h; simp
+  | cons o os ih =>
+    unfold scanOuts at h
+    split at h
+    · cases h
+    · split at h
+      · cases h
+      · split at h
+        · cases h
+        · next s1 h1 =>
+          split at h
+          · obtain ⟨e1, nd1, dj1⟩ := scanKeys_some h1
+            obtain ⟨nd2, dj2, e2⟩ := ih h
+            subst e1
+            refine ⟨?_, ?_, ?_⟩
+            · simp only [List.flatMap_cons]
+              rw [List.nodup_append]
+              refine ⟨nd1, nd2, ?_⟩
+              intro a ha b hb hab
+              subst hab
+              exact dj2 a hb (by simp [ha])
+            · intro k hk
+              simp only [List.flatMap_cons, List.mem_append] at hk
+              rcases hk with hk | hk
+              · exact dj1 k hk
+              · exact fun hs => dj2 k hk (by simp [hs])
+            · rw [e2]; simp [List.flatMap_cons]
+          · cases h
+
+/-- `in_tx_duplicate_rejected`: if some key occurs twice among the outputs of a transaction —
+    inside one output or across outputs — `validateOutputs` rejects it, whatever the database,
+    the amounts, the fork flag or the claimed hash, and nothing is written. -/
+theorem in_tx_duplicate_rejected (exc : List Nat) (oc : OutCfg) (s : Store) (outs : List Out)
+    (tx inputAmount : Nat) (fork : Bool) (hdup : ¬ (outs.flatMap (·.keys)).Nodup) :
+    validateOutputs exc oc s outs tx inputAmount fork = .err := by
+  unfold validateOutputs
+  split
+  · rfl
+  · next seen h => exact absurd (scanOuts_some h).1 hdup
+
+def oc0 : OutCfg := { limit := 256, kernelTypes := [161, 169, 163, 170, 164], keyValid := fun k => k < 900 }
+def out0 (keys : List Nat) : Out :=
+  { typ := 0, amount := 1, keys := keys, scriptOk := true, scriptEmpty := false, maskHas := true, maskValid := true, withdrawal := false }
+
+example : validateOutputs [101] oc0 {} [out0 [1, 2], out0 [3, 1]] 6 2 false = .err := by decide
+example : validateOutputs [101] oc0 {} [out0 [1, 1]] 6 1 true = .err := by decide
+-- the same outputs without the repetition are accepted and bind their keys
+example : okAnd (validateOutputs [101] oc0 {} [out0 [1, 2], out0 [3]] 6 2 false)
+    (fun s' => s'.ghost.get 1 == some 6 && s'.ghost.get 3 == some 6) = true := by decide
+
+/-- accepted outputs bind exactly through `LockGhostKeys`: everything of C04 about the durable
+    lock (foreign keys rejected, bindings immutable) applies to `validateOutputs` as well. -/
+theorem validateOutputs_foreign_rejected (exc : List Nat) (oc : OutCfg) (s : Store) (outs : List Out)
+    (k t t' inputAmount : Nat) (fork : Bool)
+    (hk : k ∈ outs.flatMap (·.keys)) (hg : s.ghost.get k = some t) (hne : t ≠ t')
+    (hx : ¬ (fork = true ∧ t' ∈ exc)) :
+    validateOutputs exc oc s outs t' inputAmount fork = .err := by
+  unfold validateOutputs
+  split
+  · rfl
+  · next seen h =>
+    split
+    · rfl
+    · have e := (scanOuts_some h).2.2
+      have hk' : k ∈ seen.reverse := by rw [e]; simpa using hk
+      simp only [lockGhostKeys, lockGhostLoop_foreign hk' hg hne hx]
+
 end Mixin.C04
